@@ -19,7 +19,7 @@ TReset == /\ Ev("reset")
           /\ applied' = 1 /\ sent' = 1 /\ acked' = 1
           /\ inflight' = [c \in Clients |-> None] /\ hist' = <<>> /\ nreq' = 0 /\ alive' = TRUE
 TSend == /\ Ev("send")
-         /\ IF R.kind = "insert" THEN SendInsert(R.c) ELSE SendQuery(R.c, R.ep, R.outcome)
+         /\ IF R.kind = "insert" THEN SendInsert(R.c) ELSE SendQuery(R.c, R.ep, R.outcome, 1)
 TServe == /\ l <= Len(Rec) /\ UNCHANGED l /\ \E c \in Clients : Serve(c)
 TRecv == /\ Ev("recv")
          /\ Receive(R.c)
